@@ -70,7 +70,8 @@ EPS32 = float(np.finfo(np.float32).eps)
 # constant model
 # ------------------------------------------------------------------------------------------------
 
-ALPHABETS = {"a4": [0.1, 0.5, 0.9, None], "a3": [0.1, 0.9, None]}
+# "n3": negative values only (z-scores): a missing entry is not a 0
+ALPHABETS = {"a4": [0.1, 0.5, 0.9, None], "a3": [0.1, 0.9, None], "n3": [-0.9, -0.1, None]}
 # Age alphabets ("pools": a history with nv visits uses sorted(pool[:nv])).  Ages need not be positive (time axes relative to a
 # diagnosis / baseline): every sorted sign pattern (-,0,+) is present, plus extreme magnitudes for the direct call.
 # All values of the sets that go through ingestion are binary fractions (exact in float32, untouched by the 6-digit age rounding).
@@ -126,7 +127,7 @@ def make_history(nf, nv, alpha, table, perm_index, aset="pos"):
     perm = _perms(nv)[perm_index]
     sorted_ages = sorted(AGE_POOLS[aset][:nv])
     ages = [sorted_ages[perm[r]] for r in range(nv)]
-    return {"ages": ages, "rows": rows, "aset": aset, "key": f"{nf}{nv}{perm_index:02d}{alpha[1]}{ASETS_ALL.index(aset):x}{table:010d}"}
+    return {"ages": ages, "rows": rows, "aset": aset, "key": f"{nf}{nv}{perm_index:02d}{alpha}{ASETS_ALL.index(aset):x}{table:010d}"}
 
 
 def ref_constant(hist, ptype, drop_full_nan):
@@ -912,7 +913,7 @@ def run_lme(shard, acc):
 # ------------------------------------------------------------------------------------------------
 
 def _spaces(tier):
-    singles = [(1, 1, "a4"), (1, 2, "a4"), (2, 1, "a4"), (2, 2, "a4")]
+    singles = [(1, 1, "a4"), (1, 2, "a4"), (2, 1, "a4"), (2, 2, "a4"), (1, 2, "n3"), (2, 2, "n3")]
     batches = [(2, 3, "a4"), (1, 3, "a4")]
     if tier == "thorough":
         singles += [(1, 3, "a4"), (3, 1, "a4"), (2, 3, "a3")]
